@@ -1584,7 +1584,8 @@ class Engine:
                 for item in con.ensures(c1):
                     s1.assume(item[1])
                 if getattr(con, 'ghost_updates', None) is not None:
-                    for gname, gval in con.ghost_updates(c0).items():
+                    # c1: the update may mention the result of the call
+                    for gname, gval in con.ghost_updates(c1).items():
                         s1.g[gname] = gval
                 if not self.feasible(s1):
                     continue
@@ -1741,7 +1742,9 @@ class Engine:
                                            == 'ret' else ('ok', 'ret', 'exc')):
                 # marker ghosts of this function ("the call happened"): set by definition at
                 # every exit, as its callers assume
-                for gname, gval in gu(c0).items():
+                cg = c0 if ctrl == 'exc' else Ctx(
+                    self, entry, s1, args, res=(v.t if isinstance(v, Sym) else v), entry=entry)
+                for gname, gval in gu(cg).items():
                     s1.g[gname] = gval
             if exit_hook is not None and ctrl in ('ok', 'ret', 'exc'):
                 # obligations over the locals at the exit (e.g. objects created by this call)
